@@ -15,6 +15,8 @@ INVARIANT Emit
 INVARIANT CountsDistribute
 INVARIANT RepeatsAdd
 INVARIANT NonEmptyDenotation
+INVARIANT RoundTrip
+INVARIANT MalformedRefused
 """
 
 
@@ -25,12 +27,12 @@ def sset(xs):
 def generate(ctx, name, els, items, depth, atoms, counts, seps, dens, simulate=None, sim_depth=30, timeout=900):
     cfg = CFG % dict(els=els, items=items, depth=depth, atoms=atoms, counts=sset(counts), seps=sset(seps), dens=sset(dens))
     if simulate:
-        res = tlc.run("MC_Grammar", cfg, workers=16, simulate="num=%d" % simulate, depth=sim_depth, seed=ctx.seed + 1,
+        res = tlc.run("MC_GrammarRT", cfg, workers=16, simulate="num=%d" % simulate, depth=sim_depth, seed=ctx.seed + 1,
                       timeout=timeout)
     else:
-        res = tlc.run("MC_Grammar", cfg, workers=16, timeout=timeout)
+        res = tlc.run("MC_GrammarRT", cfg, workers=16, timeout=timeout)
     if res.rc != 0:
-        raise tlc.TLCError("MC_Grammar %s failed: %s" % (name, tlc.brief(res.out)))
+        raise tlc.TLCError("MC_GrammarRT %s failed (generator PTGrammar and recogniser PTLex + PTParse disagree, or TLC failed): %s" % (name, tlc.brief(res.out)))
     seen = set()
     out = []
     for r in res.printed():
@@ -41,7 +43,7 @@ def generate(ctx, name, els, items, depth, atoms, counts, seps, dens, simulate=N
         out.append(r)
     if simulate:
         res.distinct = len(out)     # simulation mode: distinct complete derivations visited
-    ctx.tlc("MC_Grammar " + name + (" (-simulate, %d behaviours)" % res.sim_traces if simulate else " (exhaustive)"), res)
+    ctx.tlc("MC_GrammarRT (generator + round trip through PTLex / PTParse) " + name + (" (-simulate, %d behaviours)" % res.sim_traces if simulate else " (exhaustive)"), res)
     return out
 
 
